@@ -114,6 +114,9 @@ def main(spec):
         refv = keyvalues.ref_values(pipe_name, vals, repr)
         ev = evaluator.evaluate(pipe, refv, namespace=spec['ns'])
         bad = 0
+        if set(ch.tasks) != set(ev):
+            print('tasks', sorted(ch.tasks), 'expected', sorted(ev))
+            return 1
         for f, info in ev.items():
             t = ch.tasks[f]
             got = t.name_for_persistence
